@@ -1,4 +1,5 @@
 SPECIFICATION Spec
-CONSTANT Mutant = "none"
+CONSTANTS Mutant = "none"
+  Full = FALSE
 INVARIANTS SomeAccepted
 CHECK_DEADLOCK FALSE
